@@ -16,7 +16,10 @@ static int cmd_compile(int argc, char** argv) {
     th::emit({{"begin", out["i"]}});
     CodegenResult cr;
     th::watch(out["i"].is_number() ? out["i"].get<long>() : -1, in.value("watch", 120), in.value("ext", 2));
-    th::run_big_stack([&]() { cr = compile(files, mainf); });
+    // "stack_mb": run this compilation on a thread with an ordinary stack (the default thread stack of the platform is 8 MB) instead of
+    // the harness's 1 GB one: recursion that is linear in the length of a flat source is a crash there
+    if (in.contains("stack_mb")) th::run_on_big_stack([&]() { cr = compile(files, mainf); }, (size_t)in["stack_mb"].get<int>() << 20);
+    else th::run_big_stack([&]() { cr = compile(files, mainf); });
     th::unwatch();
     out["ok"] = cr.generated_correctly;
     json errs = json::array();
